@@ -20,7 +20,12 @@
  *   R<ret>[:<len>:<hex>[:z<size>]]  return of one recv_messages call on the layer (1 message, 1 buffer of UPCAP)
  *                  z<size> = the layer changed the caller's buffer size field to <size>
  *   S<ret>         return of a send through the layer               K<hex>|Kw|Kf|Kx  one kernel write attempt
+ *   +              (Q only) a send op starts
  *   C<0|1>         can_send                                         FAULT    out-of-range access / failed assertion
+ *   LIVE           a call consumed nothing although bytes were pending (the poll loop would spin)
+ * A "|" token among the ops starts over on a fresh instance of the same layer (prints " |"): used to put the
+ * chunked and the one-chunk delivery of the same stream into one case.  After an error return, a FAULT or LIVE
+ * later readable events of that instance are ignored (the agent drops such a socket).
  * A readable event (f:) appends the chunk to the base socket and calls recv_messages while bytes are pending,
  * stopping after an error return or a call that consumed nothing (level-triggered poll, as the agent does).
  */
@@ -123,6 +128,7 @@ static void parse_bufs (char *s, OutMsg *m)
 static void free_bufs (OutMsg *m) { for (int i = 0; i < m->n; i++) free (m->data[i]); }
 
 static guint8 *upbuf;
+static gboolean dead_layer;   /* an error return ends the life of the socket: later readable events are ignored */
 
 /* one readable event on a layer over the scripted socket */
 static void feed (NiceSocket *layer, ScriptSock *ss, const guint8 *chunk, gsize n, int g)
@@ -134,16 +140,20 @@ static void feed (NiceSocket *layer, ScriptSock *ss, const guint8 *chunk, gsize 
     NiceAddress from;
     NiceInputMessage im = { &iv, 1, &from, 0 };
     gint ret;
+    /* an out-of-range access caught by the guard, or a failed g_assert, ends the life of this instance */
+    if (sigsetjmp (fault_jb, 1) != 0) { hc_armed = 0; fprintf (of, " FAULT"); dead_layer = TRUE; return; }
+    if (!HC_TRY) { HC_END; fprintf (of, " FAULT"); dead_layer = TRUE; return; }
     paint_stack (g);
     ret = nice_socket_recv_messages (layer, &im, 1);
+    HC_END;
     fprintf (of, " R%d", ret);
     if (ret == 1) {
       gsize l = im.length > UPCAP ? UPCAP : im.length;
       fprintf (of, ":%zu:", (size_t) im.length); o_hex (upbuf, l);
       if (iv.size != UPCAP) fprintf (of, ":z%zu", (size_t) iv.size);
     }
-    if (ret < 0) break;
-    if (ss_pending (ss) == p0) break;
+    if (ret < 0) { dead_layer = TRUE; break; }
+    if (ss_pending (ss) == p0) { fprintf (of, " LIVE"); dead_layer = TRUE; break; }
   }
 }
 
@@ -151,22 +161,28 @@ static void layer_send (NiceSocket *layer, char *arg, gboolean reliable)
 {
   OutMsg m; parse_bufs (arg, &m);
   NiceOutputMessage om = { m.v, m.n };
-  gint r = reliable ? nice_socket_send_messages_reliable (layer, NULL, &om, 1) : nice_socket_send_messages (layer, NULL, &om, 1);
-  fprintf (of, " S%d", r);
+  if (HC_TRY) {
+    gint r = reliable ? nice_socket_send_messages_reliable (layer, NULL, &om, 1) : nice_socket_send_messages (layer, NULL, &om, 1);
+    HC_END;
+    fprintf (of, " S%d", r);
+  } else { HC_END; fprintf (of, " FAULT"); }
   free_bufs (&m);
 }
 
-static void run_layer_ops (NiceSocket *layer, ScriptSock *ss, char **sv, int g)
+/* returns TRUE when it stopped at a "|" token (= run the rest on a fresh layer) */
+static gboolean run_layer_ops (NiceSocket *layer, ScriptSock *ss, char **sv, int g)
 {
   char *op;
   while ((op = strtok_r (NULL, " \n", sv))) {
+    if (op[0] == '|') return TRUE;
     if (op[0] == 'f' && op[1] == ':') {
       gsize n; guint8 *b = hc_unhex (op + 2, &n);
-      feed (layer, ss, b, n, g);
+      if (!dead_layer) feed (layer, ss, b, n, g);
       free (b);
     } else if (op[0] == 's' && op[1] == ':') layer_send (layer, op + 2, FALSE);
     else if (op[0] == 'r' && op[1] == ':') layer_send (layer, op + 2, TRUE);
   }
+  return FALSE;
 }
 
 static void addr_from_bytes (NiceAddress *a, const guint8 *b, gsize n)
@@ -192,8 +208,6 @@ int main (void)
     fprintf (of, "%s", id);
     NiceSocket *volatile layer = NULL; ScriptSock *volatile ss = NULL;
     guard_lo = guard_hi = NULL;
-    if (sigsetjmp (fault_jb, 1) != 0) { hc_armed = 0; fprintf (of, " FAULT"); goto done; }
-    if (!HC_TRY) { HC_END; fprintf (of, " FAULT"); goto done; }
     if (!strcmp (cmd, "Q")) {
       paint_g = atoi (strtok_r (NULL, " \n", &sv));
       char *script = g_strdup (strtok_r (NULL, " \n", &sv)); k_script = script;
@@ -207,10 +221,17 @@ int main (void)
         if ((op[0] == 's' || op[0] == 'r') && op[1] == ':') {
           OutMsg m; parse_bufs (op + 2, &m);
           NiceOutputMessage om = { m.v, m.n };
-          gint r = op[0] == 'r' ? nice_socket_send_messages_reliable (s, NULL, &om, 1) : nice_socket_send_messages (s, NULL, &om, 1);
-          fprintf (of, " S%d", r);
+          fprintf (of, " +");
+          if (HC_TRY) {
+            gint r = op[0] == 'r' ? nice_socket_send_messages_reliable (s, NULL, &om, 1) : nice_socket_send_messages (s, NULL, &om, 1);
+            HC_END;
+            fprintf (of, " S%d", r);
+          } else { HC_END; fprintf (of, " FAULT"); }
           free_bufs (&m);
-        } else if (op[0] == 'w') { fprintf (of, " W"); g_main_context_iteration (ctx, FALSE); }
+        } else if (op[0] == 'w') {
+          fprintf (of, " W");
+          if (HC_TRY) { g_main_context_iteration (ctx, FALSE); HC_END; } else { HC_END; fprintf (of, " FAULT"); }
+        }
         else if (op[0] == 'c') fprintf (of, " C%d", nice_socket_can_send (s, NULL) ? 1 : 0);
         else if (op[0] == 'z') {
           fprintf (of, " Z"); k_script = NULL;
@@ -219,38 +240,44 @@ int main (void)
       }
       nice_socket_free (s); g_object_unref (gs); g_main_context_unref (ctx); g_free (script); k_script = NULL;
     } else {
-      NiceSocket *base = ss_new ((ScriptSock **) &ss);
-      ss->on_read = on_read; ss->on_send = on_send; ss->on_fault = on_fault;
-      int g = 0xbe;
-      if (!strcmp (cmd, "T")) {
-        int compat = atoi (strtok_r (NULL, " \n", &sv));
-        layer = nice_udp_turn_over_tcp_socket_new (base, compat);
-        TurnTcpPriv *tp = layer->priv;
-        guard_lo = tp->recv_buf.u8; guard_hi = tp->recv_buf.u8 + sizeof tp->recv_buf;
-        ss->guard = getenv ("C17_NO_GUARD") ? NULL : guard;
-      } else if (!strcmp (cmd, "S")) {
-        g = paint_g = atoi (strtok_r (NULL, " \n", &sv));
-        gsize ul, pl, al;
-        char *us = strtok_r (NULL, " \n", &sv), *ps = strtok_r (NULL, " \n", &sv), *as = strtok_r (NULL, " \n", &sv);
-        guint8 *u = hc_unhex (us, &ul), *p = hc_unhex (ps, &pl), *a = hc_unhex (as, &al);
-        gchar *user = strcmp (us, "-") ? g_strndup ((gchar *) u, ul) : NULL, *pass = strcmp (ps, "-") ? g_strndup ((gchar *) p, pl) : NULL;
-        NiceAddress addr; addr_from_bytes (&addr, a, al);
-        layer = nice_socks5_socket_new (base, &addr, user, pass);
-        g_free (user); g_free (pass); free (u); free (p); free (a);
-      } else if (!strcmp (cmd, "P")) {
-        int compat = atoi (strtok_r (NULL, " \n", &sv));
-        layer = nice_pseudossl_socket_new (base, compat);
-      } else if (!strcmp (cmd, "H")) {
-        g = paint_g = atoi (strtok_r (NULL, " \n", &sv));
-        NiceAddress addr; nice_address_init (&addr); nice_address_set_from_string (&addr, "192.0.2.7"); nice_address_set_port (&addr, 3478);
-        FILE *keep = of; of = fopen ("/dev/null", "w");       /* the CONNECT request text is not modelled */
-        layer = nice_http_socket_new (base, &addr, NULL, NULL, NULL);
-        fclose (of); of = keep;
+      /* parameters of the layer, kept so that a "|" token can start over on a fresh instance */
+      char *par[4] = { 0 }; int npar = !strcmp (cmd, "S") ? 4 : 1;
+      for (int i = 0; i < npar; i++) par[i] = strtok_r (NULL, " \n", &sv);
+      gboolean again = TRUE;
+      while (again) {
+        NiceSocket *base = ss_new ((ScriptSock **) &ss);
+        ss->on_read = on_read; ss->on_send = on_send; ss->on_fault = on_fault;
+        int g = 0xbe;
+        dead_layer = FALSE;
+        if (!strcmp (cmd, "T")) {
+          layer = nice_udp_turn_over_tcp_socket_new (base, atoi (par[0]));
+          TurnTcpPriv *tp = layer->priv;
+          guard_lo = tp->recv_buf.u8; guard_hi = tp->recv_buf.u8 + sizeof tp->recv_buf;
+          ss->guard = getenv ("C17_NO_GUARD") ? NULL : guard;
+        } else if (!strcmp (cmd, "S")) {
+          g = paint_g = atoi (par[0]);
+          gsize ul, pl, al;
+          guint8 *u = hc_unhex (par[1], &ul), *p = hc_unhex (par[2], &pl), *a = hc_unhex (par[3], &al);
+          gchar *user = strcmp (par[1], "-") ? g_strndup ((gchar *) u, ul) : NULL, *pass = strcmp (par[2], "-") ? g_strndup ((gchar *) p, pl) : NULL;
+          NiceAddress addr; addr_from_bytes (&addr, a, al);
+          layer = nice_socks5_socket_new (base, &addr, user, pass);
+          g_free (user); g_free (pass); free (u); free (p); free (a);
+        } else if (!strcmp (cmd, "P")) {
+          layer = nice_pseudossl_socket_new (base, atoi (par[0]));
+        } else if (!strcmp (cmd, "H")) {
+          g = paint_g = atoi (par[0]);
+          NiceAddress addr; nice_address_init (&addr); nice_address_set_from_string (&addr, "192.0.2.7"); nice_address_set_port (&addr, 3478);
+          FILE *keep = of; of = fopen ("/dev/null", "w");       /* the CONNECT request text is not modelled */
+          layer = nice_http_socket_new (base, &addr, NULL, NULL, NULL);
+          fclose (of); of = keep;
+        }
+        again = layer ? run_layer_ops (layer, ss, &sv, g) : FALSE;
+        if (again) {
+          fprintf (of, " |");
+          nice_socket_free (layer); layer = NULL; ss_free (ss); ss = NULL;
+        }
       }
-      if (layer) run_layer_ops (layer, ss, &sv, g);
     }
-    HC_END;
-done:
     if (layer) { if (HC_TRY) { nice_socket_free (layer); HC_END; } else HC_END; }
     if (ss) ss_free (ss);
     paint_g = 0xbe;
